@@ -16,9 +16,12 @@ FILES = ["core/src/server.rs", "core/src/inmemory.rs", "sqlite/src/lib.rs", "ser
          "server/src/api/get_child_version.rs", "server/src/api/get_snapshot.rs"]
 PROPS = ["C02", "C01", "C10", "C12", "C13", "C03", "C09", "C15", "C16", "C20", "C05", "C04", "C19", "C06", "C11", "C14", "C18", "C08", "C07"]
 
-def sh(cmd, cwd=None, timeout=3600, env=None):
-    r = subprocess.run(cmd, shell=True, cwd=cwd, capture_output=True, text=True, timeout=timeout, env=env)
-    return r.returncode, r.stdout + r.stderr
+def sh(cmd, cwd=None, timeout=900, env=None):
+    try:
+        r = subprocess.run(cmd, shell=True, cwd=cwd, capture_output=True, text=True, timeout=timeout, env=env, start_new_session=True)
+        return r.returncode, r.stdout + r.stderr
+    except subprocess.TimeoutExpired:
+        return 124, "TIMEOUT"
 
 OPS = [
     (r" == ", " != "), (r" != ", " == "), (r" && ", " || "), (r" \|\| ", " && "),
@@ -92,6 +95,9 @@ def main():
         passed = sum(int(x) for x in re.findall(r"test result: ok\. (\d+) passed", out))
         if "error" in out and "could not compile" in out:
             rec["status"] = "does_not_compile"
+        elif rc == 124:
+            rec["status"] = "killed_by_existing_tests"
+            rec["note"] = "existing suite hangs"
         elif rc != 0 or passed != 65:
             rec["status"] = "killed_by_existing_tests"
             rec["suite_passed"] = passed
